@@ -184,6 +184,8 @@ class Crate:
         self.fn_by_q = {}
         self.types = {}  # (mod_path tuple, name) -> item
         self._build()
+        from .inline import inline_helpers
+        self.inlined_calls = inline_helpers(self)
 
     # -- construction -------------------------------------------------------------------
     def _build(self):
